@@ -3115,6 +3115,10 @@ impl ContinuityStore {
         payload: ContextSelectionDecidedPayload,
     ) -> Result<String, String> {
         #[cfg(rip_verif)]
+        if rip_kernel::verif::fail("cont.append.selection_decided") {
+            return Err("injected append failure".to_string());
+        }
+        #[cfg(rip_verif)]
         rip_kernel::verif::point("cont.before_lock");
         let mut next_seq = self.next_seq.lock().expect("continuity seq mutex");
         #[cfg(rip_verif)]
@@ -3174,6 +3178,10 @@ impl ContinuityStore {
         payload: ContextCompiledPayload,
     ) -> Result<String, String> {
         #[cfg(rip_verif)]
+        if rip_kernel::verif::fail("cont.append.context_compiled") {
+            return Err("injected append failure".to_string());
+        }
+        #[cfg(rip_verif)]
         rip_kernel::verif::point("cont.before_lock");
         let mut next_seq = self.next_seq.lock().expect("continuity seq mutex");
         #[cfg(rip_verif)]
@@ -3229,6 +3237,10 @@ impl ContinuityStore {
         continuity_id: &str,
         payload: ProviderCursorUpdatedPayload,
     ) -> Result<String, String> {
+        #[cfg(rip_verif)]
+        if rip_kernel::verif::fail("cont.append.provider_cursor_updated") {
+            return Err("injected append failure".to_string());
+        }
         #[cfg(rip_verif)]
         rip_kernel::verif::point("cont.before_lock");
         let mut next_seq = self.next_seq.lock().expect("continuity seq mutex");
@@ -3465,6 +3477,10 @@ impl ContinuityStore {
         payload: JobEndedPayload,
     ) -> Result<String, String> {
         #[cfg(rip_verif)]
+        if rip_kernel::verif::fail("cont.append.job_ended") {
+            return Err("injected append failure".to_string());
+        }
+        #[cfg(rip_verif)]
         rip_kernel::verif::point("cont.before_lock");
         let mut next_seq = self.next_seq.lock().expect("continuity seq mutex");
         #[cfg(rip_verif)]
@@ -3570,6 +3586,10 @@ impl ContinuityStore {
         origin: String,
     ) -> Result<String, String> {
         #[cfg(rip_verif)]
+        if rip_kernel::verif::fail("cont.append.run_ended") {
+            return Err("injected append failure".to_string());
+        }
+        #[cfg(rip_verif)]
         rip_kernel::verif::point("cont.before_lock");
         let mut next_seq = self.next_seq.lock().expect("continuity seq mutex");
         #[cfg(rip_verif)]
@@ -3624,6 +3644,10 @@ impl ContinuityStore {
         effects: ToolSideEffects,
     ) -> Result<String, String> {
         let continuity_id = run.continuity_id.as_str();
+        #[cfg(rip_verif)]
+        if rip_kernel::verif::fail("cont.append.tool_side_effects") {
+            return Err("injected append failure".to_string());
+        }
         #[cfg(rip_verif)]
         rip_kernel::verif::point("cont.before_lock");
         let mut next_seq = self.next_seq.lock().expect("continuity seq mutex");
